@@ -80,7 +80,7 @@ impl<const L: usize> EnvLike<L> for EnvW<L> {
     fn qcancel(&mut self, _a: usize, id: usize) { self.0.cancel_order(id) }
     fn qmodify(&mut self, _a: usize, id: usize, p: Option<u32>, v: Option<u32>) { self.0.modify_order(id, p, v) }
     fn do_step<R: RngCore>(&mut self, rng: &mut R) { self.0.step(rng) }
-    fn trading(&mut self, on: bool) { if on { self.0.enable_trading() } else { self.0.disable_trading() } }
+    fn trading(&mut self, on: bool) { if on { let _ = self.0.enable_trading(); } else { let _ = self.0.disable_trading(); } }
     fn book(&self, _a: usize) -> &OrderBook<L> { self.0.get_orderbook() }
     fn cached(&self, _a: usize) -> &Level2Data<L> { self.0.level_2_data() }
     fn records(&self, _a: usize) -> &Level2DataRecords<L> { self.0.get_level_2_data_history() }
@@ -113,7 +113,7 @@ impl<const A: usize, const L: usize> EnvLike<L> for MEnvW<A, L> {
     fn qcancel(&mut self, a: usize, id: usize) { self.0.cancel_order((a, id)) }
     fn qmodify(&mut self, a: usize, id: usize, p: Option<u32>, v: Option<u32>) { self.0.modify_order((a, id), p, v) }
     fn do_step<R: RngCore>(&mut self, rng: &mut R) { self.0.step(rng) }
-    fn trading(&mut self, on: bool) { if on { self.0.enable_trading() } else { self.0.disable_trading() } }
+    fn trading(&mut self, on: bool) { if on { let _ = self.0.enable_trading(); } else { let _ = self.0.disable_trading(); } }
     fn book(&self, a: usize) -> &OrderBook<L> { self.0.get_market().get_order_book(a) }
     fn cached(&self, a: usize) -> &Level2Data<L> { &self.0.level_2_data()[a] }
     fn records(&self, a: usize) -> &Level2DataRecords<L> { self.0.get_level_2_data_history(a) }
@@ -229,7 +229,7 @@ impl<const L: usize, E: EnvLike<L>> EnvLive<L, E> {
             EOp::QModify(a, id, p, v) => { self.env.qmodify(*a, *id, *p, *v); self.queue.push((*a, Ev::Modify(*id, *p, *v))); }
             EOp::Trading(b) => {
                 self.env.trading(*b);
-                for s in self.shadows.iter_mut() { if *b { s.enable_trading() } else { s.disable_trading() } }
+                for s in self.shadows.iter_mut() { if *b { let _ = s.enable_trading(); } else { let _ = s.disable_trading(); } }
                 self.trading = *b;
             }
             EOp::Step => {
@@ -591,8 +591,8 @@ impl<const A: usize, const L: usize> MarketLive<A, L> {
             MOp::On(a, Op::Trading(b)) => {
                 // a toggle through the book handle `get_order_book_mut(a)`
                 let bk = self.market.get_order_book_mut(*a);
-                if *b { bk.enable_trading() } else { bk.disable_trading() }
-                if *b { self.shadows[*a].enable_trading() } else { self.shadows[*a].disable_trading() }
+                if *b { let _ = bk.enable_trading(); } else { let _ = bk.disable_trading(); }
+                if *b { let _ = self.shadows[*a].enable_trading(); } else { let _ = self.shadows[*a].disable_trading(); }
                 self.tradings[*a] = *b;
             }
             MOp::On(a, Op::Time(t)) => {
@@ -609,8 +609,8 @@ impl<const A: usize, const L: usize> MarketLive<A, L> {
             }
             MOp::Time(t) => { self.market.set_time(*t); for s in self.shadows.iter_mut() { s.set_time(*t); } self.desync = false; }
             MOp::Trading(b) => {
-                if *b { self.market.enable_trading() } else { self.market.disable_trading() }
-                for s in self.shadows.iter_mut() { if *b { s.enable_trading() } else { s.disable_trading() } }
+                if *b { let _ = self.market.enable_trading(); } else { let _ = self.market.disable_trading(); }
+                for s in self.shadows.iter_mut() { if *b { let _ = s.enable_trading(); } else { let _ = s.disable_trading(); } }
                 self.trading = *b;
                 for x in self.tradings.iter_mut() { *x = *b; }
             }
